@@ -17,6 +17,7 @@ EXTENDS Naturals, FiniteSets, Sequences
 CONSTANTS Paths,        \* relative source paths (strings)
           IndexNames,   \* the relative paths that claim the index: "index.mec", "index.html", "index.md"
           HtmlPaths,    \* paths read as ready-made HTML (.html / .htm / .md / .css): no tree is parsed
+          MecSibling,   \* [Paths -> Paths \cup {"none"}]: the path with its extension replaced by .mec, if that is another path
           Texts,        \* file contents
           ReloadLag     \* FALSE: specification; TRUE: the implementation's stale-parse deviation
 
@@ -58,11 +59,12 @@ EffAdd(s, p) ==
   ELSE [r |-> "ok",
         s |-> [s EXCEPT !.src[p] = s.fs[p], !.tree[p] = TreeOf(p, s.fs[p]), !.html[p] = s.fs[p], !.idx = NewIdx(s, p)]]
 
-EffReload(s, p) ==
+EffReloadWith(s, p, lag) ==
   IF s.fs[p] = None \/ s.src[p] = None THEN [r |-> "fail", s |-> s]
-  ELSE LET from == IF ReloadLag THEN s.src[p] ELSE s.fs[p] IN
+  ELSE LET from == IF lag THEN s.src[p] ELSE s.fs[p] IN
        [r |-> "ok",
         s |-> [s EXCEPT !.src[p] = s.fs[p], !.tree[p] = TreeOf(p, from), !.html[p] = from]]
+EffReload(s, p) == EffReloadWith(s, p, ReloadLag)
 
 EffCode(s, t) == [r |-> "ok", s |-> [s EXCEPT !.codes = s.codes \cup {t}]]
 EffWrite(s, p, t) == [r |-> "ok", s |-> [s EXCEPT !.fs[p] = t]]
@@ -80,7 +82,11 @@ Eff(s, op) ==
 (* get_source / get_tree / get_html of a relative path, of "" (the index) and of an anonymous text; contains *)
 GetSrc(s, p) == s.src[p]
 GetTree(s, p) == s.tree[p]
-GetHtml(s, p) == s.html[p]
+(* a request for the html of an unregistered path is answered with the html of the .mec source of the same name, if that is  *)
+(* registered (`mech serve` answers page.html from page.mec)                                                                *)
+HtmlFrom(s, p) == IF s.html[p] # None THEN p
+                  ELSE IF MecSibling[p] # None /\ s.html[MecSibling[p]] # None THEN MecSibling[p] ELSE None
+GetHtml(s, p) == IF HtmlFrom(s, p) = None THEN None ELSE s.html[HtmlFrom(s, p)]
 IndexSrc(s) == IF s.idx = None THEN None ELSE s.src[s.idx]
 Contains(s, p) == s.src[p] # None
 CodeSrc(s, t) == IF t \in s.codes THEN t ELSE None
